@@ -551,6 +551,7 @@ impl<'e, 'd> World<'e, 'd> {
                     .flat_map(|g| g.unicodes.iter().copied())
                     .collect();
                 let num_glyphs = font.num_glyphs();
+                let submitted_len = glyphs.len();
                 let inputs_in_range = glyphs.iter().all(|g| g.glyph_index < num_glyphs);
                 let owned = tuple
                     .as_ref()
@@ -574,6 +575,7 @@ impl<'e, 'd> World<'e, 'd> {
                     num_glyphs,
                     inputs_in_range,
                     tuple_used: owned.is_some(),
+                    submitted_len,
                     check: check_run(&infos),
                     max_gid: infos.iter().map(|i| i.glyph.glyph_index).max(),
                     unicodes: infos
@@ -581,6 +583,7 @@ impl<'e, 'd> World<'e, 'd> {
                         .flat_map(|i| i.glyph.unicodes.iter().copied())
                         .collect(),
                     len: infos.len(),
+                    len_shaped: infos.len(),
                     pos_len: None,
                 });
                 let mut canon = format!("{} {:?}", head, infos);
@@ -590,11 +593,16 @@ impl<'e, 'd> World<'e, 'd> {
                     } else {
                         TextDirection::LeftToRight
                     };
-                    let mut layout = GlyphLayout::new(font, &infos, dir, p.vertical);
+                    let laid_out: &[Info] = match p.prefix {
+                        Some(k) => &infos[..k.min(infos.len())],
+                        None => &infos,
+                    };
+                    let mut layout = GlyphLayout::new(font, laid_out, dir, p.vertical);
                     match layout.glyph_positions() {
                         Ok(pos) => {
                             if let Some(s) = extra.shape.as_mut() {
                                 s.pos_len = Some(pos.len());
+                                s.len = laid_out.len();
                             }
                             canon.push_str(&format!(" POS Ok {:?}", pos));
                         }
@@ -1076,10 +1084,15 @@ pub struct ShapeFacts {
     pub num_glyphs: u16,
     pub inputs_in_range: bool,
     pub tuple_used: bool,
+    /// number of glyphs submitted to `shape`
+    pub submitted_len: usize,
     pub check: Result<(), String>,
     pub max_gid: Option<u16>,
     pub unicodes: BTreeSet<char>,
+    /// number of glyphs that were laid out (the run, or its prefix)
     pub len: usize,
+    /// length of the run `shape` returned
+    pub len_shaped: usize,
     pub pos_len: Option<usize>,
 }
 
@@ -1566,6 +1579,12 @@ pub fn run_trace(
                         ));
                     }
                 }
+            }
+            // NOT asserted: "an error comes with a non-empty run". Shaping legitimately removes
+            // default-ignorable glyphs (a lone ZWNJ leaves an empty run), so an empty run next
+            // to an error is not by itself wrong (tried, alarmed on the unchanged tree, removed).
+            if !sf.ok && sf.submitted_len > 0 && sf.len_shaped == 0 {
+                stats.bump("probe.err_with_empty_run");
             }
             if let Some(pl) = sf.pos_len {
                 if pl != sf.len {
